@@ -15,7 +15,9 @@ from .interp_stmts import VSetTerm, spec_text
 
 
 class Loop:
-    def __init__(self, invariant=(), variant=None, modifies=(), locals=None):
+    def __init__(self, invariant=(), variant=None, modifies=(), locals=None, on_bind=None, progress=()):
+        self.on_bind = on_bind
+        self.progress = list(progress)     # clauses over (iteration start, back edge): a well-founded measure decreased
         self.invariant = list(invariant)
         self.variant = variant
         self.modifies = list(modifies)
@@ -452,12 +454,22 @@ class VExec(Exec):
     def old_env(self):
         return self.spec_env_stack[-1][1] if self.spec_env_stack else {}
 
-    def spec_bool(self, clause, fr=None, extra=None):
+    def spec_bool(self, clause, fr=None, extra=None, mode='assert'):
+        """mode 'assert': the clause is a goal; 'assume': a hypothesis.  Clauses universally quantified over a
+        Skolem constant (attribute .forall) are proved for the Skolem constant only and, when assumed, instantiated
+        at every relevant term the clause's .forall(ctx) returns."""
         env = self.cur_env(fr)
         if extra:
             env.update(extra)
         if callable(clause):
-            r = clause(SpecCtx(self, env, self.old_env()))
+            ctx = SpecCtx(self, env, self.old_env())
+            fa = getattr(clause, 'forall', None)
+            if fa is not None:
+                keys = fa(ctx, mode)
+                rs = [clause(ctx, k) for k in keys]
+                rs = [r if isinstance(r, z3.ExprRef) else z3.BoolVal(bool(r)) for r in rs]
+                return z3.And(*rs) if len(rs) != 1 else rs[0]
+            r = clause(ctx)
             return r if isinstance(r, z3.ExprRef) else z3.BoolVal(bool(r))
         return SpecEval(self, env, self.old_env()).boolean(_parse(clause))
 
@@ -538,7 +550,8 @@ class VExec(Exec):
                 return v
             if isinstance(h, HSymDict):
                 h.dom = self.fresh(name + '_dom', h.dom.sort())
-                h.map = self.fresh(name + '_map', h.map.sort())
+                if not getattr(h, 'fixed_map', False):
+                    h.map = self.fresh(name + '_map', h.map.sort())
                 ex = h.__dict__.get('extra')
                 if ex:
                     if 'sumlen' in ex:
@@ -689,7 +702,11 @@ class VExec(Exec):
         I = self.interp
         tmp = Frame(fi, parent=None)
         I.bind_args(fi, args, kwargs, tmp)
-        env = dict(tmp.locals)
+        env = dict(self.ghost.get('__specenv__', {}))
+        if self.frames:
+            # the caller's visible locals (closures share the frame of the function that defines them)
+            env.update({k: v for k, v in self.cur_env(self.frames[-1]).items() if k not in env})
+        env.update(tmp.locals)
         self.note(f'call:{fi.name}')
         self.spec_env_stack.append((env, dict(env)))
         saved_old = self.old
@@ -708,7 +725,7 @@ class VExec(Exec):
                 for r, cnd in con.raises.items():
                     pass
                 for e in con.ensures:
-                    self.assume(self.spec_bool(e))
+                    self.assume(self.spec_bool(e, mode='assume'))
                 if not self.feasible():
                     raise PathEnd('callee postcondition contradicts path')
                 return res
@@ -785,7 +802,7 @@ class VExec(Exec):
             self.note(f'variant:{variant[0]}')
         self.spec_env_stack = [(env, dict(env))]
         for r in con.requires:
-            self.assume(self.spec_bool(r))
+            self.assume(self.spec_bool(r, mode='assume'))
         if not self.feasible():
             self.oblige('cover', z3.BoolVal(False), f'precondition of {con.name} is satisfiable', fi.node, key=('precover',))
             raise PathEnd('requires unsat')
